@@ -102,6 +102,37 @@ Theorem C18_loser_stop_returns_early :
 Proof. exact f18c_loser. Qed.
 Print Assumptions C18_loser_stop_returns_early.
 
+(* Stop returns within its grace period, model reading: a Stop caller never waits for another thread except through the
+   grace-bounded join. In EVERY shared state (so under every interleaving, whatever the sinks do and however long they
+   run) the own step of a Stop caller with choice 1 (at the join: "the grace timer fires") is enabled; and, run alone
+   from any state, a Stop caller has returned after at most 8 such steps (no MATCH_RECOGNIZE flush, whose sink calls are
+   user code). Hence the monitor never sees ClStopOverGrace / ClStuck on a model trace (C18_stop_barrier). The harness
+   tests the premise on the real code (family B: a sink that blocks or re-enters while Stop / an expansion is pending). *)
+Theorem C18_stop_never_waits : forall c tid a s p, stop_own p = true -> exists r, lpstep c tid 1 p a s = Some r.
+Proof. exact stop_never_waits. Qed.
+Print Assumptions C18_stop_never_waits.
+Theorem C18_stop_returns_alone : forall c n st tid a p, c_cep c = false ->
+  nth_error (ths st) tid = Some (lmk p [] a) -> stop_own p = true -> stop_rank p <= n ->
+  nth_error (ths (lrun c (rep n (tid, 1)) st)) tid = Some (lmk LDone [] a).
+Proof. exact stop_returns_alone. Qed.
+Print Assumptions C18_stop_returns_alone.
+
+(* EmitSync registers with the lifecycle whatever the sink lists contain when it begins (the sinks it calls are the
+   snapshot taken later, so a sink registered while the call is in flight IS invoked by it, and Stop must join it) *)
+Theorem C18_emitsync_always_registers : forall c tid ch a s, c_track_sync c = true -> stopped s = false ->
+  exists p' code', lpstep c tid ch SyBegin a s = Some (p', code', upd_life s (life s + 1) (tokens s), [ESyncBegin tid])
+                   /\ lweight p' = 1.
+Proof. exact emitsync_always_registers. Qed.
+Print Assumptions C18_emitsync_always_registers.
+(* witness (family W): EmitSync begins with no sink, AddSyncSink, Stop cannot pass its join while the call is in flight,
+   the call invokes the new sink and ends, then Stop returns; accepted *)
+Example C18_inflight_emitsync_joined :
+  lstep (cfg_of true true true false false) 2 0 inflight_mid = None /\ life (sh inflight_mid) = 1 /\
+  rev (ltrace inflight_run) =
+    [ESyncBegin 0; EStopBegin 2; ESinkBegin 0 false; ESinkEnd 0; ESyncEnd 0 true; EStopReturn 2 true] /\
+  chk_state inflight_run = None.
+Proof. exact inflight_joined. Qed.
+
 (* non-vacuity: a run with two workers, a processor, a producer, an EmitSync and a Stop in which sinks are invoked,
    the Stop returns through the join, and the barrier is established *)
 Example C18_example :
